@@ -151,6 +151,11 @@ fn emit(ctx: &mut Ctx, model: &str, name: &str, r: &Res) {
 
 /// exact J_P is not needed here; oracles below are equalities
 pub fn corr(ctx: &mut Ctx) {
+    corr_opts(ctx, true)
+}
+
+/// `directed`: also run the directed tiny-weight cases (they probe a clause of C02 only)
+pub fn corr_opts(ctx: &mut Ctx, directed: bool) {
     let ms: Vec<usize> = if ctx.quick() { vec![2, 3, 4, 7, 16, 64] } else { vec![2, 3, 4, 7, 16, 64, 257, 1024] };
     let ns: Vec<usize> = if ctx.quick() { vec![1, 2, 3, 5, 17, 64, 300] } else { vec![1, 2, 3, 5, 17, 64, 300, 2000] };
     let ncases = ctx.n(90, 1200);
@@ -383,6 +388,8 @@ pub fn corr(ctx: &mut Ctx) {
         }
     }
 
+    small_sweep(ctx);
+
     // ---------- edge: weight <= 0 ---------------------------------------------------------------------
     ctx.begin_case("pmh3 weight 0 (hash_item asserts) / pmh3a weight 0 (skipped)");
     let r = pmh3_items(4, &[(1, 1.0), (2, 0.0)], false);
@@ -398,7 +405,7 @@ pub fn corr(ctx: &mut Ctx) {
     ctx.line("pmh3 new c 1 0", if r.is_err() { "PANIC" } else { "ok" });
 
     // ---------- directed: race values overflow for tiny weights (finding F9) -----------------------------
-    for (w, m) in [(2.3e-308f64, 16usize), (1e-307, 16)] {
+    for (w, m) in if directed { vec![(2.3e-308f64, 16usize), (1e-307, 16)] } else { vec![] } {
         ctx.note_case(&format!("tiny weight {} m={}", w, m), true);
         for variant in ["pmh3", "pmh2"] {
             let sig: Vec<u64> = if variant == "pmh3" {
@@ -410,6 +417,65 @@ pub fn corr(ctx: &mut Ctx) {
             if placeholders > 0 || sig.is_empty() {
                 ctx.oracle_failure(serde_json::json!({"kind":"impl_violates_property","key":format!("{}:single-item:w={:e}:m={}",variant,w,m),
                     "what":"placeholder survives in the signature of a non-empty set (race values overflow to inf)","placeholders":placeholders,"m":m,"w":w}));
+            }
+        }
+    }
+}
+
+
+/// many small cases with weights within a factor of two and n from m to 8m: this is where a wrong pruning
+/// bound (a point dropped although it could still win a register) shows up, and only in ~1% of the cases
+pub fn small_sweep(ctx: &mut Ctx) {
+    let ncases = ctx.n(2400, 30000);
+    for c in 0..ncases {
+        let mut rng = ctx.rng.fork();
+        let m = [2usize, 3, 4, 5, 8, 16][c as usize % 6];
+        let n = m + rng.below(7 * m as u64 + 1) as usize;
+        let ids = gen_ids(&mut rng, n);
+        let wsel = c / 6 % 3;
+        let items: Vec<(u64, f64)> = ids
+            .iter()
+            .map(|id| (*id, match wsel { 0 => if rng.below(2) == 0 { 1.0 } else { 1.5 }, 1 => 1.0 + rng.unit(), _ => [1.0, 1.25, 1.75, 3.0][rng.below(4) as usize] }))
+            .collect();
+        let variant = c % 3;
+        ctx.begin_case(&format!("pmh small sweep variant={} m={} n={} w={}", variant, m, n, wsel));
+        ctx.mark_nontrivial();
+        ctx.count(&format!("sweep variant={}", ["3", "3a", "2"][variant as usize]));
+        match variant {
+            0 => {
+                ctx.op(&format!("pmh3 new a {} {}", m, INIT));
+                for (id, w) in &items { ctx.op(&format!("pmh3 item a {}", tok(*id, *w, seed_fnv(*id)))); }
+                let r = pmh3_items(m, &items, false);
+                emit(ctx, "pmh3", "a", &r);
+            }
+            1 => {
+                let nb = 1 + rng.below(3) as usize;
+                let mut batches: Vec<Vec<(u64, f64)>> = vec![Vec::new(); nb];
+                for (i, it) in items.iter().enumerate() { batches[i * nb / n].push(*it); }
+                ctx.op(&format!("pmh3 new a {} {}", m, INIT));
+                for b in &batches {
+                    let toks: Vec<String> = b.iter().map(|(id, w)| tok(*id, *w, seed_fnv(*id))).collect();
+                    ctx.op(&format!("pmh3 batch a {}", toks.join(" ")));
+                }
+                let r = pmh3a_batches(m, &batches);
+                emit(ctx, "pmh3", "a", &r);
+                // 3 vs 3a on the implementation
+                if let (Ok(a), Ok(b)) = (&r, &pmh3_items(m, &items, false)) {
+                    if a != b {
+                        ctx.oracle_failure(serde_json::json!({"kind":"impl_violates_property","what":"ProbMinHash3a differs from ProbMinHash3 (small sweep)","m":m,"n":n,
+                          "items": items.iter().map(|(i,w)| format!("{}:{}",i,w)).collect::<Vec<_>>(), "batches": nb}));
+                    }
+                }
+            }
+            _ => {
+                let r: Res = catch(std::panic::AssertUnwindSafe(|| {
+                    let mut h = ProbMinHash2::<u64, FnvHasher>::new(m, INIT);
+                    for (id, w) in &items { h.hash_item(*id, *w); }
+                    (h.get_signature().clone(), h.verif_registers())
+                }));
+                ctx.op(&format!("pmh2 new a {} {}", m, INIT));
+                for (id, w) in &items { ctx.op(&format!("pmh2 item a {}", tok(*id, *w, seed_fnv(*id)))); }
+                emit(ctx, "pmh2", "a", &r);
             }
         }
     }
